@@ -12,6 +12,12 @@ theorem page_range_iter_yields_runs (p : CPage) (hp : CPageOk p) :
     p.ranges = runsOfList (pageMembers p.abs.bits) :=
   page_range_iter_yields_runs' p hp
 
+/-- the fuel of the page-level `collect` suffices: any larger fuel yields the same list (the inner
+`loop` fuel 9 of `next` is shown sufficient inside the proof: `pnextLoop_some` / `pnextLoop_none`) -/
+theorem page_range_iter_fuel_suffices (p : CPage) (hp : CPageOk p) (fuel : Nat) (h : 513 ≤ fuel) :
+    PRangeIter.collect fuel p.iterRanges = p.ranges := by
+  rw [pcollect_fuel p hp fuel h, page_range_iter_yields_runs' p hp]
+
 -- non-vacuity / transcription checks: a run across the element 0 / element 1 boundary, a full page
 example : (CPage.mk [2 ^ 63, 1, 0, 0, 0, 0, 0, 0] 2).ranges = [(63, 64)] := by decide
 example : (CPage.mk (List.replicate 8 (2 ^ 64 - 1)) 512).ranges = [(0, 511)] := by decide
@@ -26,6 +32,13 @@ is set; zero pages and missing majors end it. -/
 theorem range_iter_yields_abstract_ranges (s : CBitSet) (hs : CInv s) :
     s.iterRanges = s.abs.ranges :=
   range_iter_yields_abstract_ranges' s hs
+
+/-- the fuel of the set-level `collect` suffices (the inner `loop` fuel `page_map.len() + 1` of
+`next` is shown sufficient inside the proof: `snextLoop_some` / `snextLoop_none`) -/
+theorem range_iter_fuel_suffices (s : CBitSet) (hs : CInv s) (fuel : Nat)
+    (h : 512 * s.pageMap.length + 1 ≤ fuel) :
+    SRangeIter.collect fuel (SRangeIter.new s) = s.iterRanges := by
+  rw [scollect_fuel s hs fuel h, range_iter_yields_abstract_ranges' s hs]
 
 /-- the same, spelled out: the ranges are the maximal runs of all members of all mapped pages -/
 theorem range_iter_yields_runs_of_members (s : CBitSet) (hs : CInv s) :
